@@ -86,6 +86,14 @@ let codec_eval (fn : string) (args : string list) : string =
     (match res with
      | Ok v -> "ok " ^ Sexp.string_of_val v
      | Err -> "err" | Panic -> "panic" | OutOfFuel -> "outoffuel")
+  | "DECL", [ sid; mid; flags; limit; b ] ->
+    (* decoding under an explicit RecursionLimit: the depth budget the top-level call starts with *)
+    let sch = Ctx.schema sid and m = nat_of_int (int_of_string mid) in
+    let discard = String.contains flags 'd' in
+    let bs = bytes_of_hex b in
+    (match unmarshal_at sch discard (nat_of_int (List.length bs + 1)) (z_of_hex (Printf.sprintf "%x" (int_of_string limit))) m VNil bs with
+     | Ok v -> "ok " ^ Sexp.string_of_val v
+     | Err -> "err" | Panic -> "panic" | OutOfFuel -> "outoffuel")
   | _ -> raise Not_found
 
 let evaluators : (string -> string list -> string) list ref = ref [ rt_eval; time_eval; codec_eval ]
